@@ -312,14 +312,25 @@ def light_space(vc):
 RSUN = 695700.0
 
 
-@obligation("C14", "sunfrac", ensures=["O-C14-sunfrac.sunward", "O-C14-sunfrac.umbra", "O-C14-sunfrac.clear", "O-C14-sunfrac.angles"],
+@obligation("C14", "sunfrac", ensures=["O-C14-sunfrac.sunward", "O-C14-sunfrac.umbra", "O-C14-sunfrac.clear", "O-C14-sunfrac.angles", "O-C14-sunfrac.partial"],
             fns=[SU + "calculateSunVizFraction"], mode="R", domain_checks=True,
-            note="exactly 1 on the sunward side and when the discs do not overlap, exactly 0 when the solar disc is inside the Earth disc; sunfrac.domain: every arcsin/arccos/sqrt argument of the real body (partial branch included) is inside its domain, so the result is a number")
+            note="exactly 1 on the sunward side and when the discs do not overlap, exactly 0 when the solar disc is inside the Earth disc; in the penumbra the VISIBLE fraction 1 - A/(pi a^2) with A the area of the lens common to the two apparent discs (Montenbruck 3.92-3.94; native replay: A by numerical quadrature of the chord lengths, half of the samples placed inside the penumbra band); sunfrac.domain: every arcsin/arccos/sqrt argument of the real body (partial branch included) is inside its domain, so the result is a number")
 def sunfrac(vc):
     import resonaate.physics.bodies.third_body as tb
     from fractions import Fraction
     rs = float(tb.Sun.radius)
     r, s = vc.gvec("r"), vc.gvec("s")
+    if not vc.symbolic:
+        s = s * (1.5e8 / np.linalg.norm(s))
+        nr_ = min(max(np.linalg.norm(r), RE + 100.0), 10.9 * RE)
+        r = r * (nr_ / np.linalg.norm(r))
+        pen, where = vc.bool("in_penumbra"), vc.real("penumbra_pos", -1.5, 1.5)
+        if pen:  # put the satellite near the shadow edge: angle from the anti-solar axis = apparent Earth radius + where * apparent Sun radius
+            phi = np.arcsin(RE / nr_) + where * np.arcsin(rs / 1.5e8)
+            u = -s / np.linalg.norm(s)
+            w = np.cross(u, [0.3, -0.5, 0.8])
+            w = w / np.linalg.norm(w)
+            r = nr_ * (np.cos(phi) * u + np.sin(phi) * w)
     vc.assume(vc.dot(r, r) >= Fraction(RE) ** 2)  # exact square (RE**2 as a double is slightly smaller)
     d = s - r
     vc.assume(vc.dot(d, d) >= Fraction(rs) ** 2)
@@ -327,11 +338,6 @@ def sunfrac(vc):
     # (outside it the partial-occultation branch divides by c, which is 0 on the anti-solar axis where a == b)
     vc.assume(vc.dot(r, r) <= Fraction(11 * RE) ** 2)
     vc.assume(vc.dot(s, s) >= Fraction(1.4e8) ** 2)
-    if not vc.symbolic:
-        s = s * (1.5e8 / np.linalg.norm(s))
-        r = r * (min(np.linalg.norm(r), 10.9 * RE) / np.linalg.norm(r))
-        vc.assume(np.linalg.norm(r) >= RE)
-        d = s - r
     with vc.spec():
         nr, nd, ns = vc.norm(r), vc.norm(d), vc.norm(s)
         a = vc.arcsin(rs / nd)
@@ -346,3 +352,19 @@ def sunfrac(vc):
     vc.ensure("O-C14-sunfrac.sunward", vc.implies(sunward, vc.eq(frac, 1.0)))
     vc.ensure("O-C14-sunfrac.umbra", vc.implies(vc.And(vc.Not(sunward), c < abs(b - a)), vc.eq(frac, 0.0)))
     vc.ensure("O-C14-sunfrac.clear", vc.implies(vc.And(vc.Not(sunward), c >= a + b), vc.eq(frac, 1.0)))
+    if vc.symbolic:
+        with vc.spec():
+            x = (c * c + a * a - b * b) / (2 * c)
+            y = vc.sqrt(a * a - x * x)
+            lens = a * a * vc.arccos(x / a) + b * b * vc.arccos((c - x) / b) - c * y
+            visible = 1 - lens / (vc.pi * a * a)
+        vc.ensure("O-C14-sunfrac.partial", vc.implies(vc.And(vc.Not(sunward), c >= abs(b - a), c < a + b), vc.eq(frac, visible, 1e-12)))
+    else:
+        ok = True
+        if (not sunward) and abs(b - a) <= c < a + b:
+            from scipy.integrate import quad
+            lo, hi = max(-a, c - b), min(a, c + b)
+            chord = lambda t: 2 * min(np.sqrt(max(a * a - t * t, 0.0)), np.sqrt(max(b * b - (t - c) ** 2, 0.0)))
+            lens = quad(chord, lo, hi, epsabs=1e-13, epsrel=1e-10, limit=400, points=[min(max((c * c + a * a - b * b) / (2 * c), lo), hi)])[0] if hi > lo else 0.0
+            ok = abs(frac - (1 - lens / (np.pi * a * a))) < 1e-5 and -1e-9 <= frac <= 1 + 1e-9
+        vc.ensure("O-C14-sunfrac.partial", ok)
